@@ -94,10 +94,12 @@ def eval_cases(prop, cases, tag):
     return bad
 
 
-def run_harness(prop, test, n, seed, tag, files=None):
+def run_harness(prop, test, n, seed, tag, files=None, n2=None):
     outp = os.path.join(core.WORK, "%s_%s_%d.jsonl" % (prop.lower(), tag, os.getpid()))
-    rc, out, secs = core.go_test(prop, "^%s$" % test, {"VERIF_OUT": outp, "VERIF_N": str(n), "VERIF_SEED": str(seed)},
-                                 timeout=900, files=files)
+    envv = {"VERIF_OUT": outp, "VERIF_N": str(n), "VERIF_SEED": str(seed)}
+    if n2 is not None:
+        envv["VERIF_N2"] = str(n2)     # level (ii): histories on real session pairs
+    rc, out, secs = core.go_test(prop, "^%s$" % test, envv, timeout=900, files=files)
     if rc != 0 or not os.path.exists(outp):
         return None, "harness failed (rc=%d): %s" % (rc, out[-2500:])
     cases = [json.loads(l) for l in open(outp)]
@@ -182,7 +184,8 @@ def check(run):
         run.add_corr_break("G: " + gerr)
     run.proof = core.proof_step(PROP, run.tier)
     n = 400 if run.tier == "quick" else 12000
-    cases, err = run_harness(PROP, "TestVerif_C06", n, run.seed, run.tier)
+    n2 = 40 if run.tier == "quick" else 1000
+    cases, err = run_harness(PROP, "TestVerif_C06", n, run.seed, run.tier, n2=n2)
     if err:
         run.add_corr_break("D: " + err)
         cases = []
@@ -196,14 +199,19 @@ def check(run):
         "samples": [short_case(c) for c in cases[2:4]],
         "features": feats, "ops": ops, "sizes_relative_to_class_caps": size_distribution(cases),
         "total_ops": sum(len(c["ops"]) for c in cases),
+        "level_i_histories": sum(1 for c in cases if c.get("mode") != "c06s"),
+        "level_ii_histories": sum(1 for c in cases if c.get("mode") == "c06s"),
+        "level_ii_note": "level (ii) = real session pair, real Stream.Flush/writeFallback/socket/event loop/handleFallbackData/readMore; "
+                         "all shm slots held by the harness so every flush is a fallback delivery; the reader lags behind several arrivals; "
+                         "the model evaluates these histories with no size class (cfg = [])",
     })
     run.assumptions += [
         "sizes are non-negative and below 2^31 (negative sizes move the indices backwards in Discard/Reserve; uint32 truncation not modelled)",
-        "Stream.Flush is mirrored without the queue / the socket (level (i)); the receiver side runs the real moveToWithoutLock through the real readMore",
+        "level (i): Stream.Flush is mirrored without the queue / the socket, the receiver side runs the real moveToWithoutLock through the real readMore; level (ii): real session pairs, fallback transport only (the shm queue transport of real sessions is C07's subject)",
         "one writer and one reader goroutine per direction (sequential model)"]
 
     def search():
-        cs, e = run_harness(PROP, "TestVerif_C06", 4000, run.seed + 7919, "search")
+        cs, e = run_harness(PROP, "TestVerif_C06", 4000, run.seed + 7919, "search", n2=200)
         found = []
         for c in cs or []:
             for m in c.get("oracle") or []:
